@@ -40,12 +40,12 @@ def callSpec (fs : FS) (kfuel fuel : Nat) (cwdS : Str) (cwd : Loc) (base loc : S
     match guardedOpen fs kfuel fuel cwdS cwd base loc with
     | none => (ReadResult.raised, ge, st)
     | some (i, _) =>
-      if (fs.data i).length < offset + length then (ReadResult.raised, ge, st)
+      if 0 < length ∧ (fs.data i).length < offset + length then (ReadResult.raised, ge, st)
       else (ReadResult.ok (sliceOf (fs.data i) offset length), ge, st)
   | EntryPoint.tobytes =>
-    match st.raw with
-    | some j => (ReadResult.ok (sliceOf (fs.data j) offset length), [], st)
-    | none => viaLoad id
+    match st.arr, st.raw with
+    | true, some j => (ReadResult.ok (sliceOf (fs.data j) offset length), [], st)
+    | _, _ => viaLoad id
   | EntryPoint.serializeRaw =>
     match st.arr, st.raw with
     | true, some j => (ReadResult.ok (sliceOf (fs.data j) offset length), [], TState.fresh)
@@ -119,20 +119,32 @@ theorem call_eq_spec (fs : FS) (kfuel fuel : Nat) (cwdS : Str) (cwd : Loc) (base
       | none => simp [hv', ho]
       | some ir =>
         obtain ⟨i, reg⟩ := ir
-        by_cases h2 : (fs.data i).length < offset + length
+        by_cases h2 : 0 < length ∧ (fs.data i).length < offset + length
         · simp [hv', ho, h2]
         · simp [hv', ho, h2]
   | tobytes =>
-    cases raw with
-    | some j => simp [body, execStmts, execStmt, execPrim]
-    | none =>
-      simp only [body, execStmts, execStmt, if_true, Bool.false_eq_true, if_false]
+    cases arr with
+    | true =>
+      cases raw with
+      | some j => simp [body, execStmts, execStmt, execPrim]
+      | none =>
+        simp only [body, execStmts, execStmt, true_or, if_true, Bool.false_eq_true, if_false]
+        rw [exec_loadBody _ _ rfl]
+        simp only [List.nil_append]
+        cases hl1 : (loadSpec fs kfuel fuel cwdS cwd base loc offset length { raw := none, arr := true }).1 with
+        | false => simp [hl1]
+        | true =>
+          obtain ⟨i, _, hst⟩ := loadSpec_ok _ _ _ _ _ _ _ _ _ _ hl1
+          simp [hl1, hst, execPrim]
+    | false =>
+      simp only [body, execStmts, execStmt, or_true, if_true, Bool.false_eq_true, if_false]
       rw [exec_loadBody _ _ rfl]
       simp only [List.nil_append]
-      cases hl : loadSpec fs kfuel fuel cwdS cwd base loc offset length { raw := none, arr := arr } with
-      | mk ok st' =>
-        obtain ⟨raw', arr'⟩ := st'
-        cases ok <;> cases raw' <;> simp [execPrim]
+      cases hl1 : (loadSpec fs kfuel fuel cwdS cwd base loc offset length { raw := raw, arr := false }).1 with
+      | false => simp [hl1]
+      | true =>
+        obtain ⟨i, _, hst⟩ := loadSpec_ok _ _ _ _ _ _ _ _ _ _ hl1
+        simp [hl1, hst, execPrim]
   | numpy =>
     cases arr with
     | true =>
@@ -231,9 +243,11 @@ theorem callSpec_events (fs : FS) (kfuel fuel : Nat) (cwdS : Str) (cwd : Loc) (b
     · rfl
     · split <;> rfl
   | tobytes =>
-    cases raw with
-    | some j => left; simp [TState.fresh]
-    | none => right; simp only; split <;> rfl
+    cases arr <;> cases raw <;> simp only
+    · right; split <;> rfl
+    · right; split <;> rfl
+    · right; split <;> rfl
+    · left; simp [TState.fresh]
   | numpy =>
     cases arr <;> cases raw <;> simp only
     · right; split <;> rfl
@@ -343,8 +357,8 @@ theorem callSpec_result (fs : FS) (kfuel fuel : Nat) (cwdS : Str) (cwd : Loc) (b
     | some ir =>
       obtain ⟨j, reg⟩ := ir
       simp only
-      by_cases h2 : (fs.data j).length < offset + length
-      · simp only [h2, if_true]
+      by_cases h2 : 0 < length ∧ (fs.data j).length < offset + length
+      · simp only [h2, and_self, if_true]
         exact ⟨by intro b h; simp at h, fun i h => Or.inl h⟩
       · simp only [h2, if_false]
         refine ⟨?_, fun i h => Or.inl h⟩
@@ -352,20 +366,39 @@ theorem callSpec_result (fs : FS) (kfuel fuel : Nat) (cwdS : Str) (cwd : Loc) (b
         simp only [ReadResult.ok.injEq] at h
         exact ⟨j, h.symm, Or.inl ⟨reg, (by first | rfl | trivial), (by first | rfl | trivial)⟩⟩
   | tobytes =>
-    cases raw with
-    | some j =>
-      simp only
-      refine ⟨?_, fun i h => Or.inl h⟩
-      intro bytes h
-      simp only [ReadResult.ok.injEq] at h
-      exact ⟨j, h.symm, Or.inr ⟨(by first | rfl | trivial), (by first | rfl | trivial)⟩⟩
-    | none =>
-      simp only
-      obtain ⟨h1, h2⟩ := hvia { raw := none, arr := arr } id hid
+    have hgen : ∀ st0 : TState,
+        let out : ReadResult × List Ev × TState :=
+          match (loadSpec fs kfuel fuel cwdS cwd base loc offset length st0).1,
+              (loadSpec fs kfuel fuel cwdS cwd base loc offset length st0).2.raw with
+          | true, some i => (ReadResult.ok (sliceOf (fs.data i) offset length),
+              guardedEvents fs kfuel fuel cwdS cwd base loc, id (loadSpec fs kfuel fuel cwdS cwd base loc offset length st0).2)
+          | _, _ => (ReadResult.raised, guardedEvents fs kfuel fuel cwdS cwd base loc,
+              (loadSpec fs kfuel fuel cwdS cwd base loc offset length st0).2)
+        (∀ bytes, out.1 = ReadResult.ok bytes →
+          ∃ i, bytes = sliceOf (fs.data i) offset length ∧
+            ((∃ reg, guardedOpen fs kfuel fuel cwdS cwd base loc = some (i, reg) ∧
+                out.2.1 = guardedEvents fs kfuel fuel cwdS cwd base loc) ∨
+              (out.2.1 = [] ∧ st0.raw = some i))) ∧
+        (∀ i, out.2.2.raw = some i →
+          st0.raw = some i ∨ (guardedOpen fs kfuel fuel cwdS cwd base loc = some (i, true) ∧
+            out.2.1 = guardedEvents fs kfuel fuel cwdS cwd base loc)) := by
+      intro st0
+      obtain ⟨h1, h2⟩ := hvia st0 id hid
       refine ⟨?_, h2⟩
       intro bytes h
       obtain ⟨i, hb, reg, hg, he⟩ := h1 bytes h
       exact ⟨i, hb, Or.inl ⟨reg, hg, he⟩⟩
+    cases arr with
+    | true =>
+      cases raw with
+      | some j =>
+        simp only
+        refine ⟨?_, fun i h => Or.inl h⟩
+        intro bytes h
+        simp only [ReadResult.ok.injEq] at h
+        exact ⟨j, h.symm, Or.inr ⟨(by first | rfl | trivial), (by first | rfl | trivial)⟩⟩
+      | none => exact hgen { raw := none, arr := true }
+    | false => exact hgen { raw := raw, arr := false }
   | numpy =>
     cases arr with
     | true =>
